@@ -7,7 +7,7 @@
    appends one) the table entry of that line is > e, or -- when the clamp cuts
    -- it is the length of the text, which is >= e. *)
 From Coq Require Import Lia.
-From YV Require Import PyBase PyBaseProofs ShellMap ShellMapProofs Html HtmlNumbers.
+From YV Require Import PyBase PyBaseProofs ShellMap ShellMapProofs Html HtmlRegion HtmlNumbers.
 Local Open Scope list_scope.
 
 Lemma count_firstn_le c (l : list N) p : (count_char c (firstn p l) <= count_char c l)%nat.
@@ -175,4 +175,69 @@ Proof.
   - apply (group_incl (map (widen context (zlen (line_starts tex))) hd)
              (map (widen context (zlen (line_starts tex))) hd) [] []);
       [apply incl_refl | intros x [] | intros r [] | exact Hreg].
+Qed.
+
+(* the remaining premise, from the position map: when every entry of the map
+   is an offset of the text (1..len, negative for "unsure"), a highlight ends
+   inside the text -- also behind the two extensions of generate_html (macro
+   name behind a lone backslash, rest of the word for an unsure position) *)
+Lemma py_index_In {A} (l : list A) i x : py_index l i = Ok x -> In x l.
+Proof.
+  unfold py_index. intros H.
+  destruct (_ || _); [discriminate|].
+  destruct (nth_error l _) as [y|] eqn:E; [|discriminate].
+  inversion H; subst. exact (nth_error_In _ _ E).
+Qed.
+
+Theorem make_hdata_end_inside is_alpha is_word tex cm m h :
+  Forall (fun c => (Z.abs c <= zlen tex)%Z) cm ->
+  make_hdata is_alpha is_word tex cm m = Ok h ->
+  (0 <= h_end h <= zlen tex)%Z.
+Proof.
+  intros Hcm H.
+  pose proof (make_hdata_order is_alpha is_word tex cm m h H) as Hord.
+  revert H. unfold make_hdata.
+  destruct ((hm_offset m <? 0)%Z || _ || _ || _); [discriminate|].
+  destruct (py_index cm (hm_offset m)) as [cb| | |] eqn:Ecb; cbn [rbind]; try discriminate.
+  match goal with |- context [py_index cm ?i] =>
+    destruct (py_index cm i) as [ce| | |] eqn:Ece end; cbn [rbind]; try discriminate.
+  rewrite Forall_forall in Hcm.
+  pose proof (Hcm cb (py_index_In _ _ _ Ecb)) as Hb.
+  pose proof (Hcm ce (py_index_In _ _ _ Ece)) as He.
+  set (unsure := ((cb <? 0) || (ce <? 0))%Z).
+  set (hb := (Z.abs cb - 1)%Z).
+  set (he0 := if (unsure || (Z.abs ce <=? hb)%Z) then (hb + 1)%Z else Z.abs ce).
+  assert (H0 : (he0 <= zlen tex)%Z).
+  { unfold he0. destruct (unsure || (Z.abs ce <=? hb)%Z); lia. }
+  destruct (py_index tex hb) as [c0| | |]; cbn [rbind]; try discriminate.
+  intros H. injection H as H. subst h. cbn [h_beg h_end] in *.
+  split; [fold hb in Hord; lia|].
+  destruct ((he0 =? hb + 1)%Z && N.eqb c0 c_backslash).
+  - pose proof (correct_mark_macroname_range hb 1 tex) as Hc. simpl in Hc.
+    destruct Hc as [Hc|Hc]; [rewrite Hc|]; lia.
+  - destruct (unsure && is_alpha c0); [|exact H0].
+    pose proof (take_while_length_le (is_letter_w is_word) (skipn (S (Z.to_nat hb)) tex)) as Hle.
+    rewrite skipn_length in Hle.
+    match goal with |- context [match length ?x with O => _ | S _ => _ end] =>
+      change (length (take_while (is_letter_w is_word) (skipn (S (Z.to_nat hb)) tex)))
+        with (length x) in Hle;
+      revert Hle; destruct (length x) as [|k]; intros Hle end; [exact H0|].
+    unfold zlen in *. lia.
+Qed.
+
+Theorem regions_hold_their_highlights_map is_alpha is_word context tex t cm ms hd :
+  tex = t ++ [c_nl] -> (0 <= context)%Z ->
+  Forall (fun c => (Z.abs c <= zlen tex)%Z) cm ->
+  mapR (make_hdata is_alpha is_word tex cm) ms = Ok hd ->
+  Forall (fun h => (0 <= h_end h <= zlen tex)%Z) hd /\
+  forall reg, In reg (group (map (widen context (zlen (line_starts tex))) hd) [] []) ->
+  forall en, start_at (line_starts tex) (max_endlin reg) = Ok en ->
+             Forall (fun h => (h_end h <= en)%Z) reg.
+Proof.
+  intros Et Hc Hcm Hm.
+  assert (Hb : Forall (fun h => (0 <= h_end h <= zlen tex)%Z) hd).
+  { apply (mapR_Forall (make_hdata is_alpha is_word tex cm) _
+             (fun x y => make_hdata_end_inside is_alpha is_word tex cm x y Hcm) ms hd Hm). }
+  split; [exact Hb|].
+  exact (regions_hold_their_highlights is_alpha is_word context tex t cm ms hd Et Hc Hm Hb).
 Qed.
